@@ -91,3 +91,106 @@ def _find_content(bad):
         if r.get("violates"):
             return spec
     return None
+
+
+# ---- hand-written docstrings must not interpolate -------------------------------------------------------------------------
+# C05 discharges every (slot, docstring) pair by the macro contract of safe_docstring.  That is only sound if every
+# docstring that carries an interpolation IS produced by the macro: a `{{ ... }}` written between hand-written triple quotes
+# bypasses it.  Static obligation over the real template sources (jinja2's own lexer): while the literal template text is
+# inside a triple-quoted string, no variable block may start -- except inside the body of the macro itself and except the
+# allow-listed expressions whose value is a template constant (not document text).
+# client.py.jinja is rendered without any document data (Project._create_package: `client_template.render()`): `attr` iterates a
+# literal table written in the template, the two macros are defined in the template and called with literals
+DOCSTRING_ALLOW = {("client.py.jinja", "attr.docstring"), ("client.py.jinja", "httpx_args_docstring()"),
+                   ("client.py.jinja", 'attr_in_class_docstring("raise_on_unexpected_status")|wordwrap(101)|indent(12)'),
+                   ("client.py.jinja", 'attr_in_class_docstring("token")|indent(8)'),
+                   ("client.py.jinja", 'attr_in_class_docstring("prefix")|indent(8)'),
+                   ("client.py.jinja", 'attr_in_class_docstring("auth_header_name")|indent(8)')}
+
+
+def handwritten_docstring_sites():
+    import os
+    import jinja2
+    from pyvc.core import REPO
+    root = os.path.join(REPO, "openapi_python_client", "templates")
+    env = jinja2.Environment(trim_blocks=True, lstrip_blocks=True, extensions=["jinja2.ext.loopcontrols"], keep_trailing_newline=True)
+    sites, nfiles = [], 0
+    for dp, _, fs in sorted(os.walk(root)):
+        for f in sorted(fs):
+            if not f.endswith(".jinja") or f.endswith(".md.jinja") or f in ("README.md.jinja", ".gitignore.jinja"):
+                continue
+            if not (f.endswith(".py.jinja") or f.endswith("helpers.jinja") or f.endswith("macros.py.jinja") or f.endswith(".jinja")):
+                continue
+            rel = os.path.relpath(os.path.join(dp, f), root)
+            if not (rel.endswith(".py.jinja") or rel.endswith("helpers.jinja")):
+                continue                                   # toml / markdown / gitignore templates have no python strings
+            src = open(os.path.join(dp, f), encoding="utf-8").read()
+            nfiles += 1
+            in_doc = None          # None | '"""' | "'''"
+            in_macro = []          # stack of macro names
+            toks = list(env.lex(src))
+            i = 0
+            while i < len(toks):
+                ln, kind, val = toks[i]
+                if kind == "data":
+                    j = 0
+                    while j < len(val):
+                        if in_doc is None:
+                            if val.startswith('"""', j) or val.startswith("'''", j):
+                                in_doc = val[j:j + 3]
+                                j += 3
+                                continue
+                            if val[j] == "#":              # python comment: runs to the end of the line
+                                k = val.find("\n", j)
+                                j = len(val) if k == -1 else k
+                                continue
+                        else:
+                            if val[j] == "\\":
+                                j += 2
+                                continue
+                            if val.startswith(in_doc, j):
+                                in_doc = None
+                                j += 3
+                                continue
+                        j += 1
+                elif kind == "block_begin":
+                    names = [t for t in toks[i + 1:i + 6] if t[1] == "name"]
+                    if names and names[0][2] == "macro" and len(names) > 1:
+                        in_macro.append(names[1][2])
+                    elif names and names[0][2] == "endmacro" and in_macro:
+                        in_macro.pop()
+                elif kind == "variable_begin":
+                    expr = []
+                    k = i + 1
+                    while k < len(toks) and toks[k][1] != "variable_end":
+                        if toks[k][1] != "whitespace":
+                            expr.append(toks[k][2])
+                        k += 1
+                    text = "".join(expr)
+                    if in_doc is not None and not (rel.endswith("helpers.jinja") and in_macro and in_macro[-1] == "safe_docstring"):
+                        sites.append((rel, ln, text))
+                i += 1
+    return sites, nfiles
+
+
+def handwritten_docstring_obligation(rep, prop="C05"):
+    t0 = time.time()
+    ob = Obligation(id=f"{prop}.C.templates.no-interpolation-in-handwritten-docstrings", props=[prop, "C01"],
+                    unit="openapi_python_client/templates/**/*.py.jinja, helpers.jinja (jinja2 lexer)", backend="syntactic (jinja2 lexer + triple-quote scanner)",
+                    formula="no `{{ ... }}` starts while the literal template text is inside a triple-quoted string, except in the "
+                            "body of safe_docstring and for allow-listed template constants: every docstring that carries document "
+                            "text is the output of the macro the docstring contexts of C05 are discharged by")
+    try:
+        sites, n = handwritten_docstring_sites()
+        bad = [(f, ln, e) for f, ln, e in sites if (f.split("/")[-1], e) not in DOCSTRING_ALLOW]
+        if n == 0:
+            ob.status, ob.detail = UNDECIDED, "no template files found"
+        elif bad:
+            ob.status = REFUTED
+            ob.detail = "interpolation inside a hand-written triple-quoted string: " + "; ".join(f"{f}:{ln} {{{{ {e} }}}}" for f, ln, e in bad[:5])
+        else:
+            ob.status, ob.detail = PROVED, f"{n} template files scanned; allow-listed constant sites met: {len(sites)}"
+    except Exception as e:      # noqa: BLE001
+        ob.status, ob.detail = UNDECIDED, f"scanner failed: {type(e).__name__}: {e}"
+    ob.time_s = time.time() - t0
+    return rep.add(ob)
